@@ -306,6 +306,80 @@ def gen_dns_build(rng):
                 find=hx(find), ops=ops)
 
 
+B36 = b"0123456789abcdefghijklmnopqrstuvwxyz"
+
+
+def b36(i):
+    out = bytearray()
+    while True:
+        out.append(B36[i % 36])
+        i //= 36
+        if i == 0:
+            break
+    return bytes(out)
+
+
+def many_ops(m):
+    """deterministic expansion of a 'many small entries' descriptor: split = entries per
+    section [qd, an, ns, ar]; one-label owner names (1-4 octets), A records"""
+    ops = []
+    i = m.get("off", 0)
+    for sec, cnt in enumerate(m["split"]):
+        for _ in range(cnt):
+            nm = b36(i)
+            if sec == 0:
+                ops.append(dict(k="q", name=hx(nm), type=1 if i % 3 else 28, cls=1))
+            else:
+                ops.append(dict(k="rr", sec=sec, name=hx(nm), type=1, cls=1, ttl=(i * 7 + 1) & 0xFFFFFFFF,
+                                rdata=hx(struct.pack(">I", (0x0A000000 + i) & 0xFFFFFFFF))))
+            i += 1
+    return ops
+
+
+COUNT_EDGES = (255, 256, 257, 511, 512, 513, 300, 600, 1024, 767, 768)
+
+
+def gen_dns_many(rng, scale):
+    """buffers of 4-64 KiB filled with minimal questions / A records so that section counters
+    cross 255/256/257/511/512...; either roomy (every add fits, exact final counts) or
+    'until full' (more adds than fit)"""
+    shape = rng.choice(("q", "an", "ns", "ar", "mixed", "mixed"))
+    n = rng.choice(COUNT_EDGES) if rng.chance(3, 4) else rng.range(258, 1500)
+    if scale > 1 and rng.chance(1, 3):
+        n = rng.choice((1023, 1024, 1025, 2048, 4095, 4096, 4097, rng.range(1500, 9000)))
+    if shape == "mixed":
+        a = rng.choice((n, 256, 257, 255))
+        split = [rng.choice((1, 2, a)), a, rng.choice((0, 3, a, 256)), rng.choice((0, 1, 256, 300))]
+        rng.shuffle(split)
+    else:
+        split = [0, 0, 0, 0]
+        split[("q", "an", "ns", "ar").index(shape)] = n
+    m = dict(shape=shape, split=split, off=rng.below(1000))
+    ops = many_ops(m)
+    total = 12 + sum(enc_len_of(o) for o in ops)
+    if rng.chance(1, 3):
+        # until full: a 4-64 KiB buffer smaller than the sequence needs
+        bufsize = max(4096, min(65536, total - rng.range(1, 2000)))
+        if bufsize >= total:
+            bufsize = total - rng.range(1, 30)
+    else:
+        bufsize = total + rng.choice((0, 0, 1, 5, 100))
+    find = unhx(ops[rng.below(len(ops))]["name"])
+    flags = dict(qr=rng.below(2), opcode=0, aa=0, tc=0, rd=1, ra=rng.below(2), z=0, ad=0, cd=0, rcode=0)
+    return dict(op="dns_build", id=rng.below(65536), flags=flags, bufsize=bufsize, fill=rng.choice((0, 0xFF, 0xA5)),
+                find=hx(flip_case(rng, find)), ops=ops, many=m)
+
+
+def gen_dns_max_questions(rng):
+    """65535 one-label questions: the QDCOUNT field at its maximum"""
+    m = dict(shape="q", split=[65535, 0, 0, 0], off=0)
+    ops = many_ops(m)
+    total = 12 + sum(enc_len_of(o) for o in ops)
+    return dict(op="dns_build", id=rng.below(65536),
+                flags=dict(qr=0, opcode=0, aa=0, tc=0, rd=1, ra=0, z=0, ad=0, cd=0, rcode=0), bufsize=total, fill=0,
+                find=hx(b"zz9"), ops=ops, many=m)
+
+
 def gen_dns_name(rng):
     nm, cls = gen_name(rng)
     n = len(nm)
@@ -326,8 +400,14 @@ class Ctx:
 
     def viol(self, key, **info):
         self.bad = True
-        wit = {"variant": self.variant, "params": self.params, "payload": hx(payload_of(self.params)),
-               "seed": common.seed()}
+        if "many" in self.params:      # ops are re-derived from the descriptor on replay
+            wp = {k: v for k, v in self.params.items() if k != "ops"}
+            wit = {"variant": self.variant, "params": wp, "seed": common.seed()}
+            info = {k: (v if len(json.dumps(v, default=str)) < 4000 else "(elided, %d chars)" % len(json.dumps(v, default=str)))
+                    for k, v in info.items()}
+        else:
+            wit = {"variant": self.variant, "params": self.params, "payload": hx(payload_of(self.params)),
+                   "seed": common.seed()}
         wit.update(info)
         self.part["violations"].append((key, wit))
 
@@ -526,6 +606,15 @@ def eval_dns_build(ctx, obs):
         ctx.viol("oracle:dns_msg:earlier-record-modified-by-later-add", expected=hx(ref), observed=hx(buf[:size]))
         return
     ctx.count("dns_messages_byte_identical")
+    mx = max(counts)
+    if mx >= 255:
+        bucket = "255" if mx == 255 else "256" if mx == 256 else "257" if mx == 257 else "258-510" if mx < 511 else \
+            "511" if mx == 511 else "512" if mx == 512 else "513-1023" if mx < 1024 else "1024-4095" if mx < 4096 else \
+            "4096-65534" if mx < 65535 else "65535"
+        ctx.cls("dns", "section-count", "qd,an,ns,ar".split(",")[counts.index(mx)], bucket,
+                "sections>=256:%d" % sum(1 for c in counts if c >= 256),
+                "full" if any(rc != 0 for rc, _ in o["ops"]) else "all-fit")
+        ctx.count("dns_messages_with_section_count_ge_256" if mx >= 256 else "dns_messages_with_section_count_255")
     if not o.get("parsed") or tainted:
         return
     # --- parse back, judged against the reference decoder run on the same octets
@@ -1298,10 +1387,15 @@ def _shorten(p):
 
 
 def worker(job):
-    variant, exe, idx, n_dns, n_name, n_rad, n_pw, n_ver, thorough = job
+    variant, exe, idx, n_dns, n_name, n_rad, n_pw, n_ver, thorough, n_many, big = job
     rng = Rng(PROP, common.seed(), idx)
     part = common.new_part()
     cases = []
+    mrng = Rng(PROP, common.seed(), idx, "many")
+    for _ in range(n_many):
+        cases.append(gen_dns_many(mrng, 10 if thorough else 1))
+    if big:
+        cases.append(gen_dns_max_questions(mrng))
     for _ in range(n_dns):
         cases.append(gen_dns_build(rng))
     for _ in range(n_name):
@@ -1329,7 +1423,10 @@ def worker(job):
 RULE = (
     "Cases are drawn from splitmix64 streams (VERIF_SEED, worker index). DNS: a message is a header (random id, all flag "
     "fields) followed by 0-3 questions, 0-9 resource records in AN/NS/AR order and optionally an OPT pseudo-RR, or a "
-    "'fill' sequence of 15-60 small records; owner names come from the host-name grammar in classes (short, one label, "
+    "'fill' sequence of 15-60 small records, or a 'many small entries' sequence (every worker, both tiers): 255-1500 "
+    "(thorough: up to 9000, once 65535) minimal questions / A records with one-label owners into one section or mixed "
+    "over all four, in a buffer that is roomy, exact or (4-64 KiB) too small, so that QD/AN/NS/AR counts cross 255, 256, "
+    "257, 511, 512, 1024, 4096 and the header counters, info_get offsets and parse-back of every entry are compared; owner names come from the host-name grammar in classes (short, one label, "
     "a 63-octet label, exactly 253 and 252 octets, 20-127 one-octet labels, plus the invalid edges 64+-octet label, empty "
     "label, trailing dot, 254 and 255-300 octets, root); types/classes/TTLs include 0, 2^31, 2^32-1 and random values; "
     "RDATA 0-1500 octets; the heap buffer has exactly the size passed to the library and is swept around the final message "
@@ -1411,13 +1508,16 @@ def run(tier):
         share = scale if vname == "asu-gcc" else max(1, scale // 3)
         for w in range(nworkers):
             jobs.append((vname, exe, idx, per["n_dns"] * share, per["n_name"] * share, per["n_rad"] * share,
-                         per["n_pw"] * share, per["n_ver"] * share, tier == "thorough"))
+                         per["n_pw"] * share, per["n_ver"] * share, tier == "thorough",
+                         (1 if tier == "quick" else 4 * share // 3 + 1),
+                         tier == "thorough" and vname == "asu-gcc" and w == 0))
             idx += 1
     for part in common.parallel(worker, jobs):
         report.merge(part)
     need = ("dns_messages_byte_identical", "dns_records_parsed_back", "dns_rr_find_checked", "dns_names_round_tripped",
             "rad_packets_built_and_listed", "rad_pw_hidden_equal_rfc", "rad_pw_unhidden_equal_input",
-            "rad_untouched_accepted", "rad_corrupt_must_reject", "rad_wrong_secret_must_reject")
+            "rad_untouched_accepted", "rad_corrupt_must_reject", "rad_wrong_secret_must_reject",
+            "dns_messages_with_section_count_ge_256")
     for k in need:
         if report.extra.get(k, 0) == 0:
             report.inconclusive.append("monitor '%s' observed nothing" % k)
@@ -1429,6 +1529,8 @@ def replay(path):
         rec = json.load(fh)
     wit = rec["witness"]
     params = wit["params"]
+    if "many" in params and "ops" not in params:
+        params["ops"] = many_ops(params["many"])
     vmap = dict(variants("thorough"))
     vname = wit.get("variant", "asu-gcc")
     exe = common.build(**vmap[vname])
